@@ -11,6 +11,7 @@ package nd
 import (
 	"fmt"
 	"os"
+	"runtime"
 	"strconv"
 	"strings"
 )
@@ -157,6 +158,24 @@ func Concretize(x int) int { return x }
 
 // ConcretizeString forks until every byte of s is concrete.
 func ConcretizeString(s string) string { return s }
+
+// Goroutines returns the number of goroutines, other than the calling one, that are still
+// alive inside the repository's code (natively: whose stack mentions the module path;
+// under the executor: interpreted goroutines that have not finished).
+func Goroutines() int {
+	buf := make([]byte, 1<<20)
+	buf = buf[:runtime.Stack(buf, true)]
+	n := 0
+	for i, g := range strings.Split(string(buf), "\n\n") {
+		if i == 0 {
+			continue // the caller
+		}
+		if strings.Contains(g, "github.com/emersion/go-imap/v2") {
+			n++
+		}
+	}
+	return n
+}
 
 // IsSymbolic reports whether the run is symbolic (false natively).
 func IsSymbolic() bool { return false }
